@@ -1,11 +1,11 @@
 """C01  Wire encoding is lossless and matches the RFC layouts for every record type.
 
-Spec    spec/WireRR.tla: hand-written layout table (82 type codes + RFC 3597 fallback, 15 EDNS0 option
+Spec    spec/WireRR.tla: hand-written layout table (80 type codes = all of dns.TypeToRR, + RFC 3597 fallback, 15 EDNS0 option
         codes, 9 SvcParam keys), EncMsg / LenMsg / DecMsg / WFMsg, RCODE split (RFC 6891).
 MC      MC_WireRR: DecMsg(EncMsg(m)) = frame of m, DecRdata inverts EncRdata for the regular kinds,
         LenMsg = Len(EncMsg), record offsets / packing plan, RCODE split and join, on a small universe.
 GEN     Gen_WireRR modes types / cross / rrhdr / opts / svcb / gateway / nodata / unknown / hdr / rcode /
-        sections / big  ->  harness `wire replay`: Pack() = spec octets; Unpack(spec octets) = message
+        sections / big / compress  ->  harness `wire replay`: Pack() = spec octets; Unpack(spec octets) = message
         (every header bit, count, field); Unpack(spec octets).Pack() = spec octets; PackRR / UnpackRR /
         Rdlength agree; messages the wire format cannot carry must be refused.
 TV      harness `wire record` (random abstract messages over the whole layout -> real Pack / Unpack / re-Pack)
@@ -13,20 +13,23 @@ TV      harness `wire record` (random abstract messages over the whole layout ->
 
 Finding keys: wire/<stage>:<MNEMONIC>[:<feature class>]  (wire/<stage>:nodata for RDATA-less records).
 
-Mutants (checks/mutants/C01/*.diff, each `VERIF_REPO=/tmp/wire-x bin/check C01 quick` exits 1):
-  srv-swap.diff            SRV weight/port swapped in pack AND unpack   -> replay: wire/pack-octets:SRV (+ unpack-fields)
-  ttl-le.diff              RR TTL little-endian in pack AND unpack      -> replay: wire/pack-octets:* for every record with ttl != palindrome
-  u48-shift.diff           packUint48 drops the top octet               -> replay: wire/pack-octets:EUI48, TSIG
-  caa-noescape.diff        CAA value not unescaped on pack              -> replay: wire/pack-octets:CAA:backslash
-  extrcode-shift.diff      extended RCODE >> 8 instead of >> 4 (both directions) -> replay rcode mode: wire/pack-octets:OPT
-  nsec-window.diff         NSEC bitmap window length off by one for types = 7 mod 8 -> replay: wire/pack-octets:NSEC/NSEC3/CSYNC
-  svcb-nosort.diff         SvcParams not sorted on pack                 -> replay svcb mode: wire/pack-octets:HTTPS
-  header-ad-cd.diff        AD and CD bits exchanged in both directions  -> replay hdr mode: wire/pack-octets:header
+Mutants (checks/mutants/C01/*.diff; apply to a scratch copy, `VERIF_REPO=/tmp/wire-x bin/check C01 quick` exits 1 for each):
+  srv-swap.diff         SRV weight/port swapped in pack AND unpack           -> replay wire/pack-octets:SRV, unpack-fields:SRV; TV trace-pack-octets:SRV
+  ttl-le.diff           record TTL little-endian in pack AND unpack          -> replay wire/pack-octets:<every type>, unpack-fields; TV
+  u48-shift.diff        packUint48 drops the top octet                       -> replay wire/pack-octets:EUI48, TSIG (+ repack-octets); TV
+  caa-noescape.diff     CAA value not unescaped on pack                      -> replay wire/pack-octets:CAA:backslash; TV
+  extrcode-byte.diff    extended RCODE kept in the VERSION octet of the OPT TTL, both directions -> replay (rcode mode) wire/pack-octets:OPT,
+                        unpack-fields:header; TV
+  nsec-bitorder.diff    type-bitmap bit order reversed in each octet, both directions -> replay wire/pack-octets:NSEC / NSEC3 / CSYNC; TV
+  svcb-sortdesc.diff    SvcParams sorted in decreasing key order on pack     -> replay (svcb mode) wire/pack-octets:SVCB / HTTPS; TV
+  header-ad-cd.diff     AD and CD header bits exchanged, both directions     -> replay (hdr mode) wire/pack-octets:header, unpack-fields:header; TV
+  rfc3597-long.diff     unknown-type RDATA beyond 200 octets corrupted on unpack -> replay (unknown mode) wire/unpack-fields:TYPEnn, repack-octets
+All nine compile; the six "both directions" ones are invisible to pack/unpack round-trip tests.
 """
 import os, json
 import vp
 
-SHARDED = {"types", "cross", "nodata", "hdr", "rcode", "sections", "big"}
+SHARDED = {"types", "cross", "nodata", "hdr", "rcode", "sections", "big", "compress"}
 
 
 def layout(ctx):
@@ -69,7 +72,8 @@ def tv(ctx, binp, lay, n, nproc, sub="record", module="Trace_WireRR", prefix="wi
         vp.absorb(ctx, s, traces=False)
         tr = ctx.tlc_trace(module, out, xmx="3g", timeout=3000)
         if tr.vals.get("ill", "[]") != "[]":
-            raise vp.Infra("the recorder produced ill-formed abstract messages (events %s of %s)" % (tr.vals["ill"], out))
+            raise vp.Infra("events %s of %s: ill-formed abstract message from the recorder (positive index) or the CompressLen "
+                           "machines do not describe the code on it (negative index); no verdict" % (tr.vals["ill"], out))
         evs = vp.read_ndjson(out)
         annotate(tr, evs)
         vp.absorb_trace(ctx, tr, evs, lambda e: prefix + e.get("stage", "stuck") + ":" + e["key"])
@@ -119,16 +123,16 @@ def run(ctx):
         gen_jobs(ctx, binp, lay, "replay", [
             ("types", 4, s4), ("rrhdr", 1, [0]), ("opts", 1, [0]), ("svcb", 1, [0]), ("gateway", 1, [0]),
             ("nodata", 1, [0]), ("unknown", 1, [0]), ("hdr", 1, [0]), ("rcode", 1, [0]), ("sections", 1, [0]),
-            ("big", 1, [0]), ("cross", 8, [ctx.seed % 8])], tier=0)
-        tv(ctx, binp, lay, 1500, 3)
+            ("big", 1, [0]), ("compress", 1, [0]), ("cross", 4, [ctx.seed % 4])], tier=0)
+        tv(ctx, binp, lay, 2500, 4)
     else:
         ctx.tlc("MC_WireRR", consts={"Scale": 1}, timeout=3000)
         s16 = list(range(16))
         gen_jobs(ctx, binp, lay, "replay", [
             ("hdr", 16, s16), ("rcode", 4, [0, 1, 2, 3]), ("types", 4, [0, 1, 2, 3]), ("cross", 4, [0, 1, 2, 3]),
             ("rrhdr", 1, [0]), ("opts", 1, [0]), ("svcb", 1, [0]), ("gateway", 1, [0]), ("nodata", 1, [0]),
-            ("unknown", 1, [0]), ("sections", 1, [0]), ("big", 1, [0])], tier=1)
-        tv(ctx, binp, lay, 4000, 16)
+            ("unknown", 1, [0]), ("sections", 1, [0]), ("big", 1, [0]), ("compress", 4, [0, 1, 2, 3])], tier=1)
+        tv(ctx, binp, lay, 8000, 16)
     ctx.assumptions += [
         "abstract messages are well-formed in the sense of WireRR!WFMsg: names <= 255 octets, length fields equal to the "
         "length of what they size, type bitmaps / SvcParam mandatory lists strictly increasing, no duplicate SvcParamKeys, "
@@ -138,7 +142,7 @@ def run(ctx):
         "values the Go API cannot spell (ISDN without sub-address, tcp-keepalive TIMEOUT present with value 0) are only "
         "checked in the unpack -> pack direction",
     ]
-    ctx.notes["types_in_layout"] = 82
+    ctx.notes["types_in_layout"] = 80
     ctx.notes["types_not_covered"] = ("none of dns.TypeToRR is missing from the layout; NXT is stated with the RFC 2535 flat bitmap "
                                       "(the library uses the NSEC window format: known finding); user-registered private types are "
                                       "represented by one type (65280) with opaque RDATA registered by the harness")
